@@ -64,11 +64,14 @@ pub fn host_gadgets(r: &mut StdRng) -> Value {
     let mut es: Vec<(usize, usize, &str)> = vec![];
     let nsp = r.random_range(2..=3usize);
     for i in 0..nsp {
-        vs.push(AV { id: i + 1, ty: "Z", ph: r.random_range(0..8), vars: vec![] });
+        // T-like support spiders survive the Clifford simplification that precedes gadget fusion (a Clifford support spider would be
+        // complemented or pivoted away and the gadgets with it); every third host has one Clifford spider all the same
+        let ph = if i == 0 && r.random_bool(0.33) { r.random_range(0..4) * 2 } else { [1, 3, 5, 7][r.random_range(0..4)] };
+        vs.push(AV { id: i + 1, ty: "Z", ph, vars: vec![] });
     }
     for i in 0..nsp {
         for j in (i + 1)..nsp {
-            if r.random_bool(0.5) {
+            if r.random_bool(0.3) {
                 es.push((i + 1, j + 1, "H"));
             }
         }
